@@ -30,7 +30,8 @@ RULE = ('extrema_exhaustive: every sequence of length 0..L over the alphabet %s 
         '(integer levels with ties/plateaus, sinusoid sums, quantised, scaled, trend) x pad_width in {0..5, 8, 50} x 3 modes x parabolic on/off. '
         'envelope: deterministic sweep over every alphabet sequence of length 5..L with >= 2 extrema (options cycled through parabolic on/off x '
         '{splrep, pchip, mono_pchip} x {upper, lower, combined} x pad 1..5), plus random short alphabet sequences and long signals x the same options x pad 0..5, 8, 50, '
-        '2-D column input and the emd.utils re-export. Each implementation call has a 2 s budget (a re-padding loop that never covers the edges is reported as raises:Timeout). '
+        '2-D column input and the emd.utils re-export; a further block stores the signal as int64 / int32 (integer levels, integer random walks, quantised sinusoid sums) '
+        'or float32 (all families) instead of float64. Each implementation call has a 2 s budget (a re-padding loop that never covers the edges is reported as raises:Timeout). '
         'A case is non-trivial when the (mode-transformed) signal has at least two strict extrema, so that padding/interpolation happens; '
         'distinct by content hash.' % (_ext.LEVELS,))
 
@@ -305,6 +306,22 @@ class Envelope(Stream):
             {'x': [0, 1, 0, 1, 0], 'emode': 'upper', 'method': 'splrep', 'pad': 5, 'parab': 0},
             {'x': [0, 1, 0, 2, 0], 'emode': 'upper', 'method': 'splrep', 'pad': 2, 'parab': 1, 'col2d': 1},
         ]
+        # the same property for signals stored as integers / single precision: the envelope is still the (real-valued)
+        # interpolant at each sample (round-2 seeded change: envelope cast back to the dtype of the input, i.e. truncated)
+        ints = [0, 2, 1, 3, 0, 1, 0, 2, 1, 4, 2, 3, 1]
+        for dt in ('int64', 'int32'):
+            for emode, method, parab in (('upper', 'splrep', 0), ('lower', 'pchip', 0), ('combined', 'mono_pchip', 0),
+                                         ('upper', 'pchip', 1), ('lower', 'splrep', 1)):
+                out.append({'x': ints, 'emode': emode, 'method': method, 'pad': 2, 'parab': parab, 'dtype': dt,
+                            'family': 'corpus-dtype'})
+        out.append({'x': [0, -2, 1, -3, 0, 1, 0, -2, 1], 'emode': 'combined', 'method': 'splrep', 'pad': 1, 'parab': 0,
+                    'dtype': 'int64', 'family': 'corpus-dtype'})
+        out.append({'x': [0, 5, 0, 7, 0], 'emode': 'upper', 'method': 'splrep', 'pad': 5, 'parab': 0, 'dtype': 'int32',
+                    'col2d': 1, 'family': 'corpus-dtype'})
+        f32 = _ext.as_dtype([0.1, 1.3, 0.2, 2.7, -0.4, 1.1, 0.3, 3.9, 1.2, 2.2, 0.6], 'float32')
+        for emode, method, parab in (('upper', 'splrep', 0), ('lower', 'pchip', 1), ('combined', 'splrep', 1)):
+            out.append({'x': f32, 'emode': emode, 'method': method, 'pad': 2, 'parab': parab, 'dtype': 'float32',
+                        'family': 'corpus-dtype'})
         return out
 
     def generate(self, rng, tier):
@@ -334,10 +351,33 @@ class Envelope(Stream):
                    'pad': rng.choice(_ext.PADS if rng.random() < 0.9 else [8, 50]),
                    'parab': int(rng.random() < 0.5), 'col2d': int(rng.random() < 0.1), 'utils': int(rng.random() < 0.2),
                    'family': fam}
+        # input stored as int64 / int32 / float32 (case['x'] holds exactly the stored values)
+        for i in range(1500 if tier == 'thorough' else 160):
+            dt = rng.choice(_ext.DTYPES)
+            n = rng.choice([5, 8, 16, 33, 64]) if rng.random() < 0.7 else rng.randint(3, 120)
+            if dt == 'float32':
+                fam = rng.choice(_ext.FAMILIES)
+                x = _ext.synth_signal(rng, n, fam)
+            else:
+                fam = rng.choice(['levels', 'signed-levels', 'int-walk', 'int-quantised', 'int-quantised'])
+                if fam == 'int-walk':
+                    x, v = [], 0
+                    for _ in range(n):
+                        v += rng.randint(-3, 3)
+                        x.append(v)
+                elif fam == 'int-quantised':
+                    q = rng.choice([2, 5, 10, 100, 1000])
+                    x = [q * v for v in _ext.synth_signal(rng, n, rng.choice(['smooth', 'trend']))]
+                else:
+                    x = _ext.synth_signal(rng, n, fam)
+            yield {'x': _ext.as_dtype(x, dt), 'emode': rng.choice(list(_ext.EMODES)), 'method': rng.choice(_ext.METHODS),
+                   'pad': rng.choice(_ext.PADS if rng.random() < 0.9 else [8, 50]),
+                   'parab': int(rng.random() < 0.4), 'col2d': int(rng.random() < 0.1), 'utils': int(rng.random() < 0.2),
+                   'family': fam, 'dtype': dt}
 
     def impl(self, case):
         return _ext.call_env(case['x'], case['emode'], case['method'], case['pad'], case['parab'],
-                             case.get('col2d', 0), case.get('utils', 0))
+                             case.get('col2d', 0), case.get('utils', 0), dtype=case.get('dtype'))
 
     def ops(self, case, out):
         tab = None if (isinstance(out, ImplError) or out.get('none')) else out['tab']
@@ -426,7 +466,7 @@ class Envelope(Stream):
 
     def tags(self, case, out):
         t = ['emode=' + case['emode'], 'method=' + case['method'], 'pad=%d' % case['pad'], 'parabolic=%d' % case['parab'],
-             'family=' + case.get('family', 'corpus')]
+             'family=' + case.get('family', 'corpus'), 'dtype=' + (case.get('dtype') or 'float64')]
         if isinstance(out, ImplError):
             t.append('raises:' + out['error'] + (':pad0-rejected' if self._rejected(case) else ''))
         elif out.get('none'):
@@ -452,7 +492,7 @@ class Envelope(Stream):
                 yield dict(case, x=x[cut:])
                 yield dict(case, x=x[:n - cut])
         if any(v != round(v, 1) for v in x):
-            yield dict(case, x=[round(v, 1) for v in x])
+            yield dict(case, x=_ext.as_dtype([round(v, 1) for v in x], case.get('dtype')))
         for k in ('col2d', 'utils'):
             if case.get(k):
                 yield dict(case, **{k: 0})
